@@ -47,7 +47,9 @@ def signal_transform(func):
             raise TypeError("Signal type must be a subclass of pulsarbat.Signal!")
 
         if isinstance(x.data, da.Array):
-            z = da.map_blocks(func, x.data, **dask_kwargs, **kwargs)
+            # Bind the function's own keywords, so that names such as ``dtype``
+            # or ``name`` are not taken for parameters of ``map_blocks``.
+            z = da.map_blocks(functools.partial(func, **kwargs), x.data, **dask_kwargs)
         else:
             z = func(x.data, **kwargs)
 
